@@ -143,7 +143,8 @@ class HyteraIPSC:
         _ipsc.reserved_7a = ipsc.reserved_7a
         _ipsc.reserved_2a = ipsc.reserved_2a
         _ipsc.reserved_2b = ipsc.reserved_2b
-        _ipsc.reserved_1 = ipsc.reserved_1b
+        # kaitai reads the last byte as u1 (int)
+        _ipsc.reserved_1 = bytes([ipsc.reserved_1b])
 
         return _ipsc
 
@@ -160,14 +161,19 @@ class HyteraIPSC:
             + half_byte_to_bytes(self.color_code)
             + self.frame_type.value.to_bytes(2, byteorder="little")
             + self.reserved_2a[0:2]
+            # 33 bytes of burst are padded to 34 bytes (17 swapped words) of IPSC payload
             + byteswap_bytes(
-                self.payload
-                if isinstance(self.payload, bytes)
-                else (self.payload.as_bytes() + b"\x00")
+                (
+                    self.payload
+                    if isinstance(self.payload, bytes)
+                    else self.payload.as_bytes()
+                )[0:33]
+                + b"\x00"
             )
             + self.reserved_2b[0:2]
             + self.call_type.value.to_bytes(1, byteorder="little")
-            + self.destination_radio_id.to_bytes(4, byteorder="little")
-            + self.source_radio_id.to_bytes(4, byteorder="little")
+            # radio ids are 24-bit, stored in upper three bytes of U4LE
+            + (self.destination_radio_id << 8).to_bytes(4, byteorder="little")
+            + (self.source_radio_id << 8).to_bytes(4, byteorder="little")
             + self.reserved_1[0:1]
         )
